@@ -160,3 +160,7 @@ Definition T_Pow (t p : N) : N :=
 Definition Poly64_Times_spec (p q : N) : N := trunc64 (clmul p q).
 Definition Poly64_Div_check (p d q r : N) : bool :=
   (N.lxor (clmul q d) r =? p) && ((r =? 0) || (N.log2 r <? N.log2 d)).
+
+(* T.Inverse as a total function for use as a field parameter (0 is never inverted
+   by the callers; T_Inverse 0 itself is the explicit panic above) *)
+Definition gf_inv (a : N) : N := match T_Inverse a with Ok i => i | _ => 0 end.
